@@ -62,6 +62,12 @@ func zzC03x(n int, percent, sharedVariants bool, notReadyAs string) {
 	// the status the previous sync stored (the strategy starts from a copy of it) is arbitrary: counters
 	// of an earlier sync — stuck nodes that have recovered since included — must not leak into this one
 	rs.Status.Desired = nondet.Int32("prev.desired", 0, 1000)
+	if percent {
+		// (percentages are resolved by floating-point code the engine only runs on concrete operands: with
+		// percent limits the stored desired count is a fixed one, larger than any cluster of the harness — the
+		// node list shrank since the previous sync)
+		rs.Status.Desired = 25
+	}
 	rs.Status.Current = nondet.Int32("prev.current", 0, 1000)
 	rs.Status.Ready = nondet.Int32("prev.ready", 0, 1000)
 	rs.Status.Available = nondet.Int32("prev.available", 0, 1000)
